@@ -6,7 +6,7 @@ import math
 from hypothesis import strategies as st
 
 from vlib.accfg_common import execute
-from vlib.ctx import fresh_ctx, parse, shared_ctx, to_text
+from vlib.ctx import fresh_ctx, parse, run_pass, shared_ctx, to_text
 from vlib.interp import InterpError, unsigned
 from vlib.machines import CSRMachine
 from vlib.runner import Info, Outside, Reject, Sub, Violation
@@ -14,7 +14,7 @@ from vlib.runner import Info, Outside, Reject, Sub, Violation
 ID = "C08"
 RULE = (
     "Recipes: an accelerator instance (snax_alu with generated streamer configurations: 1..4 streamers, 1..6 temporal dims with n/i/r flags, "
-    "1..2 spatial dims, option subsets; snax_gemmx default and from_config geometries m,n,k with >= 3 temporal dims; snax_xdma with extension/mask "
+    "1..2 spatial dims, option subsets (also patterns with more temporal dims than the streamer has, whose canonical form fits); snax_gemmx default and from_config geometries m,n,k with >= 3 temporal dims; snax_xdma with extension/mask "
     "subsets; snax_hwpe_mult) plus a snax_stream.streaming_region (hwpe: linalg.generic) whose stride patterns carry pairwise distinct marker values "
     "(prime bounds, strides that are distinct multiples of 8) with lengths 0..dimensionality, zero-pointer operands, and kernel bodies "
     "(alu add/mul; gemmx mac / qmac with zero points / mac+rescale / rescale only, i8 and i32 outputs with generated rescale parameters; xdma with each extension's kernel or none). "
@@ -702,7 +702,104 @@ def recipe(draw, tier):
     return r
 
 
+# --------------------------------------------------------------------------------------------- gemmx per-channel-group launches
+
+def prop_launch(r):
+    """gemmx matmul + rescale with more per-channel shift / multiplier values than the array has columns: the launch is lowered to
+    one accelerator launch per group of n channels, each preceded by writes of that group's values to the shift_j / mult_i registers
+    (same packing as the setup: channel 4j+b of the group in byte b of shift_j). The lowered CSR trace is executed and, at every write
+    of launch_gemmx, the registers must hold the values of that group."""
+    import contextlib
+    import io
+
+    from props.C04 import AddrMachine
+    from snaxc.transforms.convert_linalg_to_accfg import ConvertLinalgToAccPass
+
+    acc = make_acc(r)
+    text = build_module(r, acc)
+    ctx = shared_ctx().clone()
+    ctx._registered_accelerators = dict(ctx._registered_accelerators)
+    ctx._registered_accelerators[acc.name] = lambda: acc
+    mod = parse(text, ctx)
+    mod.verify()
+    try:
+        ConvertLinalgToAccPass().apply(ctx, mod)
+        mod.verify()
+    except Exception as e:
+        raise Reject(f"convert-linalg-to-accfg: {type(e).__name__}: {str(e)[:60]}")
+    launches = [o for o in mod.walk() if o.name == "accfg.launch"]
+    if len(launches) != 1 or "mult_vals" not in launches[0].attributes:
+        raise Reject("no per-channel-group launch produced")
+    try:
+        with contextlib.redirect_stderr(io.StringIO()):
+            run_pass(mod, "convert-accfg-to-csr", ctx=ctx)
+        mod.verify()
+    except Exception as e:
+        raise Violation(f"gemmx:channel-groups:lowering-raises:{type(e).__name__}", dict(error=str(e)[:300], module=text))
+    m = AddrMachine()
+    n_ops = len(r["patterns"])
+    try:
+        execute(mod, PTR[:n_ops] + [ZPA, ZPB], machine=m)
+    except InterpError as e:
+        from vlib.runner import HarnessError
+
+        raise HarnessError(f"cannot execute lowered module: {e}")
+    aop = acc.generate_acc_op()
+    addr = {n_: a.value.data for n_, a in aop.field_items()}
+    laddr = {n_: a.value.data for n_, a in aop.launch_field_items()}
+    n = acc.n
+    rs = r["rescale"]
+    groups = len(rs["mult"]) // n
+    regs: dict = {}
+    seen = 0
+    streamer_launches = 0
+    for e in m.trace:
+        if e[0] != "w":
+            continue
+        a_, v_ = e[1], _u(e[2]) if isinstance(e[2], int) else e[2]
+        if a_ == laddr["launch_streamer"]:
+            streamer_launches += 1
+        if a_ == laddr["launch_gemmx"]:
+            g = seen
+            seen += 1
+            if g >= groups:
+                break
+            for i in range(n):
+                want = _u(rs["mult"][g * n + i])
+                if regs.get(addr[f"mult_{i}"]) != want:
+                    raise Violation("gemmx:channel-groups:mult-register-differs-at-launch",
+                                    dict(group=g, i=i, got=regs.get(addr[f"mult_{i}"]), want=want, module=text))
+            for j in range(math.ceil(n / 4)):
+                got = _bytes(regs.get(addr[f"shift_{j}"], 0))
+                want_s = [(rs["shift"][g * n + 4 * j + b] & 0xFF) if 4 * j + b < n else 0 for b in range(4)]
+                if got != want_s:
+                    raise Violation("gemmx:channel-groups:shift-bytes-differ-at-launch", dict(group=g, j=j, got=got, want=want_s, module=text))
+            continue
+        regs[a_] = v_
+    if seen != groups:
+        raise Violation("gemmx:channel-groups:number-of-accelerator-launches-differs", dict(got=seen, want=groups, module=text))
+    if streamer_launches != 1:
+        raise Violation("gemmx:channel-groups:streamers-not-launched-exactly-once", dict(got=streamer_launches, module=text))
+    return Info(nontrivial=groups >= 2 and len(set(rs["shift"])) > 1, classes=(f"groups:{groups}", f"n:{n}", "kernel:" + r["kernel"]), evals=groups)
+
+
+@st.composite
+def launch_recipe(draw, tier):
+    r = draw(recipe(tier).filter(lambda x: x.get("acc") == "gemmx" and str(x.get("kernel", "")).endswith("_rescale")))
+    acc = make_acc(r)
+    n = acc.n
+    c = draw(st.integers(2, 3))
+    r["rescale"] = dict(r["rescale"], shift=[draw(st.integers(0, 63)) for _ in range(c * n)], mult=[draw(st.integers(1, 2 ** 30)) for _ in range(c * n)])
+    # the number of output tiles must be divisible by the number of channel groups
+    for p_ in r["patterns"]:
+        if len(p_["ub"]) > 1 and any(p_["ub"]):
+            p_["ub"][1] *= c
+    return r
+
+
 SUBS = [
+    Sub("gemmx_channel_group_launches", lambda tier: launch_recipe(tier), prop_launch, budget=dict(quick=300, thorough=4000),
+        floor=dict(quick=40, thorough=600), nontrivial_rule=">= 2 channel groups with differing shift values"),
     Sub("setup_values", lambda tier: recipe(tier), prop, budget=dict(quick=6000, thorough=80000), floor=dict(quick=600, thorough=8000),
         nontrivial_rule="non-default configuration, or a pattern shorter than the hardware dimensionality, or a reuse/broadcast/zero-pointer rule fired"),
 ]
